@@ -17,6 +17,14 @@ class Crate(object):
         self.statics = {s["path"]: s for s in data.get("statics", [])}
         self.adts = {a["path"]: a for a in data.get("adts", [])}
         self._inlined = {}
+        if self.name == "lexgen_util":
+            from . import segx as _segx
+            for pth, a in self.adts.items():
+                last = pth.rsplit("::", 1)[-1]
+                if last not in _segx.RUNTIME_PUBLIC and len(a.get("variants", [])) == 1 and \
+                        a["variants"][0]["name"] == last and not a.get("from_expansion"):
+                    _segx.PRIVATE_RUNTIME_ADTS.add(pth)
+                    _segx.PRIVATE_RUNTIME_ADTS.add("lexgen_util::" + pth)
 
     def raw_body(self, npath):
         bs = self.by_norm.get(npath)
